@@ -204,6 +204,41 @@ impl<E> CQueue<E> {
     }
 
     ///
+    /// Returns the timestamp of the event that the next call to
+    /// `fetch_next` will return, without removing the event and
+    /// without advancing the time of the queue.
+    ///
+    #[must_use]
+    pub fn peek_time(&self) -> Option<Duration> {
+        if self.is_empty() {
+            return None;
+        }
+
+        if let Some((_, time, _)) = self.zero_event_bucket.front() {
+            return Some(*time);
+        }
+
+        // Same scan as in `fetch_next`, but on a local cursor.
+        let mut head = self.head;
+        let mut t1 = self.t1;
+        loop {
+            while self.buckets[head].is_empty() {
+                head = (head + 1) % self.n;
+                t1 += self.t;
+            }
+
+            let min = self.buckets[head].front_time();
+            if min > t1 {
+                head = (head + 1) % self.n;
+                t1 += self.t;
+                continue;
+            }
+
+            return Some(min);
+        }
+    }
+
+    ///
     /// Fetches the smalles event from the calender queue.
     ///
     /// # Panics
